@@ -167,11 +167,26 @@ def domain(desc, scope):
         return [None] + domain(desc['inner'], scope)
     if k == 'const':
         return [desc['value']]
+    if k == 'expr':
+        # an object built in the process under test (a smart type, an
+        # engine ...): the expression is evaluated once per case
+        return [_Expr(desc['code'])]
     if k == 'func':
         return [lambda *a: a[0] if a else None,
                 lambda *a: bool(a and isinstance(a[0], int) and a[0] > 0),
                 lambda *a: None]
     raise ValueError('no domain for %r' % (desc,))
+
+
+class _Expr:
+    def __init__(self, code):
+        self.code = code
+
+    def make(self):
+        return eval(self.code, {'__import__': __import__})
+
+    def __repr__(self):
+        return self.code
 
 
 class _Iter:
@@ -197,6 +212,8 @@ def bounded(target, params, requires, ensures, raises, is_gen, scope, repo,
             if isinstance(v, _Iter):
                 args[n] = iter(v.items)
                 spec_args[n] = v.items
+            elif isinstance(v, _Expr):
+                args[n] = spec_args[n] = v.make()
             else:
                 args[n] = v
                 spec_args[n] = v
